@@ -22,7 +22,7 @@ type interceptFn func(caller *frame, fn *ssa.Function, args []value) value
 
 // Config carries per-run settings that influence interception.
 type Config struct {
-	Stubs          map[string]string // real function -> model function (same package)
+	Stubs          map[string]string // real function -> model function (same package, or "import/path.Func")
 	FreezeProperty string
 	SymPkg         string // import path of the harness API package
 	// MapOrderFuncs: functions in which `range` over a map of 2..3 entries
@@ -122,7 +122,15 @@ func (i *interpreter) resolveIntercept(fn *ssa.Function) interceptFn {
 	}
 	if i.cfg != nil {
 		if model, ok := i.cfg.Stubs[name]; ok {
-			mf := fn.Pkg.Func(model)
+			var mf *ssa.Function
+			if k := strings.LastIndex(model, "."); k >= 0 {
+				// model in another package ("import/path.Func"): stubs of dependency functions
+				if mp := i.prog.ImportedPackage(model[:k]); mp != nil {
+					mf = mp.Func(model[k+1:])
+				}
+			} else {
+				mf = fn.Pkg.Func(model)
+			}
 			if mf == nil {
 				panic(engineTrap{msg: "model function " + model + " not found for " + name})
 			}
